@@ -44,14 +44,19 @@ VARIABLES
     pend,       \* why we unwind: "turn" / "div"
     cfg,        \* [mind, maxd, cfgMaxd, extra, check, dim]
     nleap,      \* leapfrogs performed (incl. a divergent one)
-    rejected,   \* set of indices that belong to discarded sub-trees
-    visited,    \* indices reached by a successful leapfrog
+    rejected,   \* set of index spans <<lo, hi>> of discarded sub-trees
+    visited,    \* <<lo, hi>>: span of indices reached by successful leapfrogs (and 0)
     res         \* result record, valid when phase = "done"
 
 vars == <<phase, main, stk, dir, checking, inExtra, extraLeft, tc, turning,
           pend, cfg, nleap, rejected, visited, res>>
 
-Leaf(i, w, isMain) == [lo |-> i, hi |-> i, draw |-> i, depth |-> 0, w |-> w, main |-> isMain]
+\* `tag` identifies the state held as the tree's draw (an opaque value: the
+\* index in model checking, the logged position/energy identity in traces);
+\* it travels with the draw through merges exactly like the State handle in
+\* the code.
+Leaf(i, w, isMain, tag) ==
+    [lo |-> i, hi |-> i, draw |-> i, depth |-> 0, w |-> w, main |-> isMain, tag |-> tag]
 
 Top == stk[Len(stk)]
 
@@ -69,27 +74,27 @@ Init ==
     /\ main = None /\ stk = <<>> /\ dir = 1 /\ checking = TRUE
     /\ inExtra = FALSE /\ extraLeft = 0 /\ tc = 0 /\ turning = FALSE
     /\ pend = "none" /\ cfg = None /\ nleap = 0
-    /\ rejected = {} /\ visited = {} /\ res = None
+    /\ rejected = {} /\ visited = <<0, 0>> /\ res = None
 
 Finish(reason, isDiv, isMaxd, tree) ==
     /\ phase' = "done"
     /\ res' = [why |-> reason, idx |-> tree.draw, depth |-> tree.depth,
                maxd |-> isMaxd, div |-> isDiv, lo |-> tree.lo, hi |-> tree.hi,
-               err |-> FALSE]
+               err |-> FALSE, tag |-> tree.tag]
     /\ main' = tree
     /\ stk' = <<>>
 
 \* ------------------------------------------------------------------------
-TrajInit(c, w0) ==
+TrajInit(c, w0, tag0) ==
     /\ phase = "idle"
     /\ cfg' = c
     /\ extraLeft' = c.extra
-    /\ nleap' = 0 /\ rejected' = {} /\ visited' = {}
+    /\ nleap' = 0 /\ rejected' = {} /\ visited' = <<0, 0>>
     /\ IF c.dim = 0
-       THEN /\ Finish("dim0", FALSE, FALSE, Leaf(0, w0, TRUE))
+       THEN /\ Finish("dim0", FALSE, FALSE, Leaf(0, w0, TRUE, tag0))
             /\ UNCHANGED <<dir, checking, inExtra, tc, turning, pend>>
        ELSE /\ phase' = "loop"
-            /\ main' = Leaf(0, w0, TRUE)
+            /\ main' = Leaf(0, w0, TRUE, tag0)
             /\ res' = None
             /\ UNCHANGED <<stk, dir, checking, inExtra, tc, turning, pend>>
 
@@ -114,10 +119,11 @@ LeapStart == IF dir = 1 THEN Top.self.hi ELSE Top.self.lo
 
 \* Indices of all trees held by the frames from position k upward, plus the
 \* pending `other` trees: what is thrown away when frames k.. are discarded.
-Span(t) == t.lo..t.hi
-FrameSet(f) == IF f.other = None THEN {} ELSE Span(f.other)
+Span(t) == <<t.lo, t.hi>>
+FrameSet(f) == IF f.other = None THEN {} ELSE {Span(f.other)}
 DiscardFrom(k) ==
-    UNION {Span(stk[j].self) \cup FrameSet(stk[j]) : j \in k..Len(stk)}
+    UNION {{Span(stk[j].self)} \cup FrameSet(stk[j]) : j \in k..Len(stk)}
+InSpans(i, S) == \E sp \in S : sp[1] <= i /\ i <= sp[2]
 
 \* Result of the main-level extend when a sub-tree (or the first step) fails.
 BeginUnwind(why, s) ==
@@ -131,26 +137,28 @@ BeginUnwind(why, s) ==
     ELSE /\ phase' = "unwind" /\ pend' = why /\ stk' = s
          /\ UNCHANGED <<main, res>>
 
-Leap(kind, w) ==
+Leap(kind, w, tag) ==
     /\ phase = "ext" /\ Top.other = None
     /\ nleap' = IF kind = "err" THEN nleap ELSE nleap + 1
     /\ CASE kind = "ok" ->
               /\ stk' = Normalize([stk EXCEPT ![Len(stk)].other =
-                                     Leaf(LeapStart + dir, w, FALSE)])
-              /\ visited' = visited \cup {LeapStart + dir}
+                                     Leaf(LeapStart + dir, w, FALSE, tag)])
+              /\ visited' = <<IF LeapStart + dir < visited[1] THEN LeapStart + dir ELSE visited[1],
+                               IF LeapStart + dir > visited[2] THEN LeapStart + dir ELSE visited[2]>>
               /\ tc' = 0 /\ turning' = FALSE
               /\ UNCHANGED <<phase, main, pend, res, rejected>>
          [] kind = "div" ->
               \* the frame that stepped returns Diverging(self, info); everything
               \* built in this extension except the main tree is discarded
               /\ rejected' = rejected \cup
-                     (DiscardFrom(1) \ Span(main))
+                     (DiscardFrom(1) \ {Span(main)})
               /\ BeginUnwind("div", SubSeq(stk, 1, Len(stk) - 1))
               /\ UNCHANGED <<visited, tc, turning>>
          [] kind = "err" ->
               /\ phase' = "done"
               /\ res' = [why |-> "err", idx |-> 0, depth |-> main.depth, maxd |-> FALSE,
-                         div |-> FALSE, lo |-> main.lo, hi |-> main.hi, err |-> TRUE]
+                         div |-> FALSE, lo |-> main.lo, hi |-> main.hi, err |-> TRUE,
+                         tag |-> main.tag]
               /\ stk' = <<>>
               /\ UNCHANGED <<main, pend, rejected, visited, tc, turning>>
     /\ UNCHANGED <<dir, checking, inExtra, extraLeft, cfg>>
@@ -179,7 +187,8 @@ Merged(acc) ==
     [lo |-> MergedLo, hi |-> MergedHi,
      draw |-> IF acc THEN Top.other.draw ELSE Top.self.draw,
      depth |-> Top.self.depth + 1, w |-> Top.self.w + Top.other.w,
-     main |-> Top.self.main]
+     main |-> Top.self.main,
+     tag |-> IF acc THEN Top.other.tag ELSE Top.self.tag]
 
 \* merge_into, followed by the return of this extend call to its caller.
 Merge(acc) ==
@@ -193,7 +202,7 @@ Merge(acc) ==
                /\ UNCHANGED <<pend, rejected>>
           ELSE IF turning
                THEN \* caller discards: `Turning(_) => return Turning(self)`
-                    /\ rejected' = rejected \cup (DiscardFrom(1) \ Span(main))
+                    /\ rejected' = rejected \cup (DiscardFrom(1) \ {Span(main)})
                     /\ BeginUnwind("turn", rest)
                ELSE /\ stk' = Normalize([rest EXCEPT ![Len(rest)].other = t])
                     /\ UNCHANGED <<phase, main, pend, res, rejected>>
@@ -265,9 +274,9 @@ DoneOK ==
        /\ res.hi - res.lo + 1 = Pow2(res.depth)
        \* the draw is the start or a state a successful leapfrog reached,
        \* outside every discarded sub-trajectory
-       /\ res.idx = 0 \/ res.idx \in visited
+       /\ visited[1] <= res.idx /\ res.idx <= visited[2]
        \* (an extra doubling deliberately re-integrates a rejected extension)
-       /\ cfg.extra = 0 => res.idx \notin rejected
+       /\ cfg.extra = 0 => ~InSpans(res.idx, rejected)
        \* the maxdepth flag is set exactly when maxdepth was the only reason
        /\ res.maxd <=> (res.why = "maxdepth")
        /\ res.maxd => (~res.div /\ res.depth >= cfg.maxd)
